@@ -97,4 +97,10 @@ def run(ctx):
                                     "texts occurs in the parsed statement as often as in the text (crate's own lexer and parser followed)")
     from . import readtables as _rt05
     _rt05.rule_core_forms(ctx, "C05-core-forms-kept")
+    # `case` selects a clause by (memv key '(datum ...)) — a free reference to the library's memv: the clause R7RS selects is the
+    # one the expansion selects only if that procedure is membership by eqv? at every position of the datum list
+    ctx.rule("C05-case-membership", "the memv that `case` expands into compares the key with every datum by eqv? (a datum that is a list "
+                                    "with the same elements as the key, but another object, selects nothing)")
+    from . import listtables as _lt05
+    _lt05.rule_list_library(ctx, "C05-case-membership", only={"memv"})
     return EXPLANATION, NOT_DECIDED
